@@ -118,7 +118,8 @@ def run(ctx: Ctx):
     first_write = cfg.node_of(ml)
     for attr, src in (("comment", "self.system.system_gro.comment_line"), ("box_matrix", "self.system.system_gro.box_matrix")):
         st = [s for s in walk_no_nested(scope) if isinstance(s, ast.Assign) and norm(s.targets[0]) == "%s.%s" % (handle, attr)]
-        ok = len(st) == 1 and norm(st[0].value) == src and cfg.node_of(st[0]).id in dom[first_write.id] \
+        from ..pat import expand_single_defs as _xsd5
+        ok = len(st) == 1 and norm(_xsd5(f.node, st[0].value)) == src and cfg.node_of(st[0]).id in dom[first_write.id] \
             and not guards_of(st[0], pm)
         ctx.ob("R5.5", f, st[0] if st else "%s forwarding" % attr, ok,
                "the output's %s is taken from the input system before the first line is written" % ("title" if attr == "comment" else "box"),
@@ -215,6 +216,16 @@ def _r5_2_to_4(ctx: Ctx, f, cfg, dom, pm, op, cc):
     want = canon_test(ast.parse("%s in %s" % (key, table), mode="eval").body, True) if key and table else None
     gs = cguards_of(mc, pm_)
     ok = arg_ok and key_is_name and table == cc and want is not None and gs == [want]
+    if not ok and isinstance(mc.func.value, ast.Name) and mc.func.value.id in sd:
+        # the same lookup with dict.get: `a = table.get(mol.name)` ... `if a is None: continue` ... `a.exchange_map(mol)`
+        g_ = sd[mc.func.value.id]
+        if isinstance(g_, ast.Call) and call_name(g_) == "get" and isinstance(g_.func, ast.Attribute) and len(g_.args) == 1:
+            table = norm(g_.func.value)
+            key = norm(g_.args[0])
+            keyv = norm(sd[key]) if key in sd else None
+            key_is_name = (keyv == "%s.name" % mol) or key == "%s.name" % mol
+            want = canon_test(ast.parse("%s is None" % mc.func.value.id, mode="eval").body, False)
+            ok = arg_ok and key_is_name and table == cc and gs == [want]
     ctx.ob("R5.2", f, mc, ok,
            "a molecule is skipped exactly when its species name is not in the complete correspondence, and otherwise "
            "mapped with the exchange map stored under that same name, applied to that molecule", node=mc,
@@ -238,6 +249,7 @@ def _r5_2_to_4(ctx: Ctx, f, cfg, dom, pm, op, cc):
     al = atom_loops[0]
     atom = norm(al.target)
     counter = None
+    counter_iter = None
     paths = enum_paths(al.body)
     for i, p in enumerate(paths):
         st = p.stmts()
@@ -254,6 +266,9 @@ def _r5_2_to_4(ctx: Ctx, f, cfg, dom, pm, op, cc):
             if len(slots) == 1 and const_int(slots[0].targets[0].slice) == 3:
                 slot_store = slots[0]
                 counter = norm(slot_store.value)
+                if isinstance(slot_store.value, ast.Call) and call_name(slot_store.value) == "next" and len(slot_store.value.args) == 1 \
+                        and isinstance(slot_store.value.args[0], ast.Name):
+                    counter_iter = slot_store.value.args[0].id
         ctx.ob("R5.3", f, "atom-loop path %d: %s" % (i, p.describe()[:160]), ok3 and line_ok,
                "each atom of the mapped molecule produces exactly one written line, built from that atom", node=al)
         incs = [s for s in st if isinstance(s, ast.AugAssign) and norm(s.target) == counter and isinstance(s.op, ast.Add) and const_int(s.value) == 1] \
@@ -262,11 +277,27 @@ def _r5_2_to_4(ctx: Ctx, f, cfg, dom, pm, op, cc):
         allinc = incs + incs2
         ok4 = slot_store is not None and len(allinc) == 1 and st.index(slot_store) < st.index(allinc[0]) and ok3 \
             and st.index(slot_store) < st.index(writes[0])
+        if counter_iter and slot_store is not None and not allinc:
+            # a counting iterator: next(counter) is taken exactly once per written line
+            nexts = [c_ for s_ in st for c_ in ast.walk(s_) if isinstance(c_, ast.Call) and call_name(c_) == "next" and c_.args
+                     and norm(c_.args[0]) == counter_iter]
+            ok4 = len(nexts) == 1 and ok3 and st.index(slot_store) < st.index(writes[0])
         ctx.ob("R5.4", f, "atom-loop path %d: slot 3 := %s; increments: %d" % (i, counter, len(allinc)), ok4,
                "the running counter is stored as the atom number before the line is written and before its single increment",
                node=slot_store or al)
     ctx.floor("R5.3", len(paths), 1, "paths of the atom loop body")
-    if counter:
+    if counter_iter:
+        defs = [s for s in walk_no_nested(f.node) if isinstance(s, ast.Assign) and norm(s.targets[0]) == counter_iter]
+        okci = len(defs) == 1 and isinstance(defs[0].value, ast.Call) and call_name(defs[0].value) == "count" and (
+            (len(defs[0].value.args) >= 1 and const_int(defs[0].value.args[0]) == 1 and (len(defs[0].value.args) == 1 or const_int(defs[0].value.args[1]) == 1))
+            or any(k_.arg == "start" and const_int(k_.value) == 1 for k_ in defs[0].value.keywords)) \
+            and not any(defs[0] is x for x in ast.walk(ml)) and cfg.node_of(defs[0]).id in dom[cfg.node_of(ml).id]
+        others = [c_ for c_ in calls_in(f.node) if call_name(c_) == "next" and c_.args and norm(c_.args[0]) == counter_iter
+                  and not any(c_ is x for x in ast.walk(al))]
+        ctx.ob("R5.4", f, defs[0] if defs else "counter initialisation", okci and not others,
+               "the counter starts at 1 before the molecule loop and is never reset or changed elsewhere (atom numbers run "
+               "consecutively from 1 over the whole file)", node=defs[0] if defs else f.node)
+    elif counter:
         defs = [s for s in walk_no_nested(f.node) if (isinstance(s, ast.Assign) and norm(s.targets[0]) == counter)
                 or (isinstance(s, ast.AugAssign) and norm(s.target) == counter)]
         inits = [s for s in defs if isinstance(s, ast.Assign) and const_int(s.value) is not None]
